@@ -166,7 +166,7 @@ MC_INVARIANTS = ["MemoTransparent", "WsInsertion", "CaseInsensitive", "AutoKwd",
                  "OnlyCommonObjects", "SpansExact"]
 
 
-def universe(rep, family, depth=1, emit=True):
+def universe(rep, family, depth=1, emit=True, maxlen=""):
     """(M) + enumeration: model-check MC_Peg for `family` (sharded), return the emitted universe
     [(g, cfg, inputs, outs)] -- the theorems are checked on every grammar in the same runs."""
     from concurrent.futures import ThreadPoolExecutor
@@ -176,7 +176,7 @@ def universe(rep, family, depth=1, emit=True):
 
     def one(k):
         return tlc.model_check("MC_Peg", env=dict(VT_FAMILY=family, VT_DEPTH=str(depth), VT_SHARD=str(k),
-                                                   VT_NSHARDS=str(n), VT_EMIT="1" if emit else "0"),
+                                                   VT_NSHARDS=str(n), VT_EMIT="1" if emit else "0", VT_MAXLEN=str(maxlen)),
                                workers=1, timeout=3000)
 
     with ThreadPoolExecutor(max_workers=min(n, tlc.NCPU)) as ex:
@@ -191,9 +191,9 @@ def universe(rep, family, depth=1, emit=True):
     return out, inputs
 
 
-def judge_universe(rep, pid, family, depth=1, compare=D.strip_far, sample=None, rng=None, cfg_over=None):
+def judge_universe(rep, pid, family, depth=1, compare=D.strip_far, sample=None, rng=None, cfg_over=None, maxlen=""):
     """Replay the whole emitted universe (or a seeded sample of its grammars) into textX."""
-    uni, inputs = universe(rep, family, depth)
+    uni, inputs = universe(rep, family, depth, maxlen=maxlen)
     if sample is not None and len(uni) > sample:
         uni = rng.sample(uni, sample)
     mmcache = MMCache()
@@ -245,10 +245,10 @@ def judge_universe(rep, pid, family, depth=1, compare=D.strip_far, sample=None, 
     return n
 
 
-def judge_universe_memo(rep, pid, family, depth):
+def judge_universe_memo(rep, pid, family, depth, maxlen=""):
     """C19: every case of the universe with memoization on and off; both must equal the module's outcome
     (accept, model and error position), hence each other."""
-    uni, inputs = universe(rep, family, depth)
+    uni, inputs = universe(rep, family, depth, maxlen=maxlen)
     mism = []
     n = 0
     for u in uni:
